@@ -77,12 +77,25 @@ struct Ctx {
     clock: Clock,
     /// `true`: `post_stop` waits
     gate: Arc<tokio::sync::watch::Sender<bool>>,
+    /// `true`: `post_start` waits (the target stays `Starting`, its message loop has not begun)
+    start_gate: Arc<tokio::sync::watch::Sender<bool>>,
 }
 
 impl Ctx {
     fn handled(&self, m: (u32, u32)) {
         let t = self.clock.now();
         self.sh.lock().unwrap().handled.push((m.0, m.1, t));
+    }
+    async fn post_start(&self) {
+        let mut rx = self.start_gate.subscribe();
+        loop {
+            if !*rx.borrow() {
+                break;
+            }
+            if rx.changed().await.is_err() {
+                break;
+            }
+        }
     }
     async fn post_stop(&self) {
         let mut rx = self.gate.subscribe();
@@ -108,6 +121,10 @@ impl Actor for Target {
     type State = ();
     type Arguments = ();
     async fn pre_start(&self, _me: ActorRef<Self::Msg>, _: ()) -> Result<(), ActorProcessingErr> {
+        Ok(())
+    }
+    async fn post_start(&self, _me: ActorRef<Self::Msg>, _s: &mut ()) -> Result<(), ActorProcessingErr> {
+        self.0.post_start().await;
         Ok(())
     }
     async fn handle(&self, _me: ActorRef<Self::Msg>, m: Self::Msg, _s: &mut ()) -> Result<(), ActorProcessingErr> {
@@ -136,6 +153,10 @@ impl ThreadLocalActor for TlTarget {
     type Arguments = Ctx;
     async fn pre_start(&self, _me: ActorRef<Self::Msg>, ctx: Ctx) -> Result<Ctx, ActorProcessingErr> {
         Ok(ctx)
+    }
+    async fn post_start(&self, _me: ActorRef<Self::Msg>, ctx: &mut Ctx) -> Result<(), ActorProcessingErr> {
+        ctx.post_start().await;
+        Ok(())
     }
     async fn handle(&self, _me: ActorRef<Self::Msg>, m: Self::Msg, ctx: &mut Ctx) -> Result<(), ActorProcessingErr> {
         if m == POISON {
@@ -369,6 +390,10 @@ enum Op {
     /// the same with a handler that panics
     FailP,
     AdvFailP(u64),
+    /// first op of a case: the target is spawned with `post_start` gated (it stays `Starting`)
+    StartHold,
+    /// the gate opens: `post_start` returns, the message loop begins
+    Started,
 }
 
 impl Op {
@@ -404,6 +429,8 @@ impl Op {
             Op::Fail => "fail".into(),
             Op::AdvFail(d) => format!("advfail {d}"),
             Op::FailP => "failp".into(),
+            Op::StartHold => "starthold".into(),
+            Op::Started => "started".into(),
             Op::AdvFailP(d) => format!("advfailp {d}"),
         }
     }
@@ -442,6 +469,8 @@ impl Op {
             "fail" => Op::Fail,
             "advfail" => Op::AdvFail(n(1)?),
             "failp" => Op::FailP,
+            "starthold" => Op::StartHold,
+            "started" => Op::Started,
             "advfailp" => Op::AdvFailP(n(1)?),
             _ => return None,
         })
@@ -478,6 +507,8 @@ async fn run_case(tl: bool, ops: &[Op]) -> Vec<String> {
     let t0 = tokio::time::Instant::now();
     let sh = Arc::new(Mutex::new(Shared::default()));
     let gate = Arc::new(tokio::sync::watch::channel(false).0);
+    let start_gated = matches!(ops.first(), Some(Op::StartHold));
+    let sgate = Arc::new(tokio::sync::watch::channel(start_gated).0);
     let (watcher, _wh) = Actor::spawn(None, Watcher { sh: sh.clone(), t0 }, ()).await.expect("watcher");
     let mut tlw: Option<Tl> = None;
     let target = if tl {
@@ -488,7 +519,7 @@ async fn run_case(tl: bool, ops: &[Op]) -> Vec<String> {
         let (freezer, _fh) = Freezer::spawn(None, FreezerState { ack: ack_tx, thaw: thaw_rx }, spawner.clone())
             .await
             .expect("freezer");
-        let ctx = Ctx { sh: sh.clone(), clock: Clock::Cell(vnow.clone()), gate: gate.clone() };
+        let ctx = Ctx { sh: sh.clone(), clock: Clock::Cell(vnow.clone()), gate: gate.clone(), start_gate: sgate.clone() };
         let (target, _th) =
             TlTarget::spawn_linked(None, ctx, watcher.get_cell(), spawner.clone()).await.expect("tl target");
         quiesce().await;
@@ -501,7 +532,7 @@ async fn run_case(tl: bool, ops: &[Op]) -> Vec<String> {
         tlw = Some(w);
         target
     } else {
-        let ctx = Ctx { sh: sh.clone(), clock: Clock::Tokio(t0), gate: gate.clone() };
+        let ctx = Ctx { sh: sh.clone(), clock: Clock::Tokio(t0), gate: gate.clone(), start_gate: sgate.clone() };
         let (target, _th) = Actor::spawn_linked(None, Target(ctx), (), watcher.get_cell()).await.expect("target");
         target
     };
@@ -670,6 +701,11 @@ async fn run_case(tl: bool, ops: &[Op]) -> Vec<String> {
             Op::FailP => {
                 let _ = target.cast(POISON_PANIC);
             }
+            // armed at spawn (only meaningful as the first op of a case)
+            Op::StartHold => {}
+            Op::Started => {
+                let _ = sgate.send_replace(false);
+            }
             Op::AdvFailP(d) => {
                 bump_clock(*d).await;
                 let _ = target.cast(POISON_PANIC);
@@ -787,6 +823,7 @@ async fn run_case(tl: bool, ops: &[Op]) -> Vec<String> {
             // inside the gated `post_stop`: whatever the status says, the message loop is over
             (_, None, Some(t)) => format!("PostStop@{t}"),
             (ActorStatus::Running, None, None) => "Running".to_string(),
+            (ActorStatus::Starting, None, None) => "Starting".to_string(),
             (s, e, _) => format!("{s:?}:{e:?}"),
         };
         let tgt = if tlw.as_ref().map(|w| w.stalled).unwrap_or(false) { format!("{tgt} <tl thread stalled>") } else { tgt };
@@ -797,6 +834,7 @@ async fn run_case(tl: bool, ops: &[Op]) -> Vec<String> {
         t.ah.abort();
     }
     let _ = gate.send_replace(false);
+    let _ = sgate.send_replace(false);
     target.kill();
     if let Some(w) = tlw.as_mut() {
         // the freezer's cycle ends, the thread runs freely and winds down
@@ -821,6 +859,13 @@ async fn run_case(tl: bool, ops: &[Op]) -> Vec<String> {
 fn gen_case(rng: &mut Rng, st: &mut Stats) -> Vec<Op> {
     let n = rng.range(3, 16);
     let mut ops = Vec::new();
+    // an eighth of the cases: the target is still `Starting` (gated `post_start`) for a while
+    let mut starting = rng.chance(1, 8);
+    if starting {
+        ops.push(Op::StartHold);
+        st.bump("cases_with_starting_target");
+        st.bump("starthold");
+    }
     let mut n_timers = 0usize;
     let mut have_exit_after = false;
     // a third of the cases gate `post_stop` early on: the target then sits in `post_stop` (stopped
@@ -861,6 +906,11 @@ fn gen_case(rng: &mut Rng, st: &mut Stats) -> Vec<Op> {
             st.bump("hold");
         }
         let r = rng.below(100);
+        if starting && n_timers > 0 && rng.chance(1, 9) {
+            starting = false;
+            st.bump("started");
+            ops.push(Op::Started);
+        }
         let op = if gated && (80..86).contains(&r) && n_timers > 0 {
             Op::PsRelease
         } else if gated && r >= 86 {
@@ -948,6 +998,13 @@ fn gen_case(rng: &mut Rng, st: &mut Stats) -> Vec<Op> {
                 }
                 _ => Op::Drain,
             }
+        };
+        // `drain()` on a target that is not `Running` yet is out of the model's scope (the status is
+        // overwritten when `post_start` returns)
+        let op = match op {
+            Op::Drain if starting => Op::Stop,
+            Op::AdvDrain(d) if starting => Op::AdvStop(d),
+            o => o,
         };
         st.bump(op.text().split(' ').next().unwrap());
         ops.push(op);
@@ -1065,6 +1122,20 @@ fn fixed_cases() -> Vec<Vec<Op>> {
         vec![Hold, Stop, Xsi(2), Xsa(1), Adv(2), PsRelease],
         vec![Xsi(0)],
         vec![Xsi(3), Adv(40)],
+        // the target is still Starting (gated post_start): sends queue up, a stop request waits, a kill is obeyed
+        vec![StartHold, Sa(2), Adv(3), Adv(4), Started],
+        vec![StartHold, Si(3), Sa(2), Ea(4), Adv(3), Adv(3), Adv(4), Started],
+        vec![StartHold, Si(3), Adv(3), Adv(3), Started, Adv(3)],
+        vec![StartHold, Ka(2), Sa(1), Adv(1), Adv(1), Started],
+        vec![StartHold, Sa(1), Adv(1), Kill, Started],
+        vec![StartHold, Sa(1), Stop, Adv(1), Started, Adv(1)],
+        vec![StartHold, Sa(1), Adv(1), AdvStop(1), Adv(1), Started],
+        vec![StartHold, Ea(0), Sa(0), Started],
+        vec![StartHold, Hold, Si(1), Adv(2), Ea(1), Adv(1), Started, Adv(2), PsRelease],
+        vec![StartHold, Sa(1), Adv(1), Fail, Sa(1), Adv(1), Started],
+        vec![StartHold, Si(2), Drop(0), Sa(3), AdvAbort(2, 1), Adv(2), Started, Adv(2)],
+        vec![StartHold, Xsi(2), Dsi(2), Csa(3), Adv(2), Adv(2), Started],
+        vec![StartHold, Started, Sa(1), Adv(1)],
         // the target FAILS (handler returns Err): no post_stop, ActorFailed; timers find a dead target
         vec![Sa(5), Fail, Adv(5)],
         vec![Si(3), Adv(3), Fail, Adv(3), Adv(3)],
@@ -1304,6 +1375,12 @@ fn main() {
                     }
                     if o.contains("Stopped:") {
                         st.bump("obs_target_stopped");
+                    }
+                    if o.contains("tgt=Starting") {
+                        st.bump("obs_target_starting");
+                        if !o.contains("att=-") {
+                            st.bump("obs_attempt_while_starting");
+                        }
                     }
                     if o.contains("<failed>") {
                         st.bump("obs_target_failed");
